@@ -117,6 +117,23 @@ theorem dirCluster_used (hM : MedX v d files gh X) {h c : Nat} (hh : h ∈ dirId
     obtain ⟨hm, _⟩ := dirChain_spec hM hh hf
     exact (hM.owns.2.2 c).2 (List.mem_flatten_of_mem (List.mem_append_left _ hm) hc)
 
+/-- A cluster of a directory is a cluster of the chains `gh.G`. -/
+theorem dirCluster_memG (hM : MedX v d files gh X) {h c : Nat} (hh : h ∈ dirIds gh.dirs) (hc : c ∈ dirClusters v gh.G h) :
+    c ∈ gh.G.flatten := by
+  by_cases hf : isFixedRoot v h
+  · rw [dirClusters_fixed hf] at hc; cases hc
+  · rw [dirClusters_eq] at hc
+    unfold dirChain at hc
+    rw [if_neg hf] at hc
+    exact List.mem_flatten_of_mem (dirChain_spec hM hh hf).1 hc
+
+theorem memG_used (hM : MedX v d files gh X) {c : Nat} (hc : c ∈ gh.G.flatten) : isUsed v d c :=
+  (hM.owns.2.2 c).2 (by rw [List.flatten_append]; exact List.mem_append_left _ hc)
+
+/-- Every cluster of the chains `gh.G` satisfies `P`: the clause holds (whatever the extra chains `X`). -/
+theorem dirInit_of_G (hM : MedX v d files gh X) (hUG : ∀ c, c ∈ gh.G.flatten → P c) : DirClustersInit v P d gh :=
+  dirInit_of_all fun _ hh _ hc => hUG _ (dirCluster_memG hM hh hc)
+
 /-- Every cluster in use satisfies `P`: the clause holds. -/
 theorem dirInit_of_used (hM : MedX v d files gh X) (hU : ∀ c, isUsed v d c → P c) : DirClustersInit v P d gh :=
   dirInit_of_all fun _ hh _ hc => hU _ (dirCluster_used hM hh hc)
@@ -138,6 +155,14 @@ theorem used_same {v' : FatVolume} {d' : Disk} {files' : List FileInfo} {gh' : G
     (hM : MedX v d files gh X) (hv : v' = v) (hM' : MedX v' d' files' gh' X) (hG : gh'.G = gh.G)
     (hU : ∀ c, isUsed v d c → P c) : ∀ c, isUsed v' d' c → P c :=
   used_of_med hM (by rw [hv]; exact SameGeom.refl _) hM' (by rw [hG]; exact fun _ h => h) hU
+
+/-- A write outside the FAT brings no cluster into use. -/
+theorem used_set_nonFat (hg : WFGeom v) {b : Nat} {p : Block} (hb : regionOf v b ≠ .fat) {c : Nat}
+    (h : isUsed v (d.set b p) c) : isUsed v d c := by
+  refine (isUsed_congr_raw (d := d) (d' := d.set b p) ?_).1 h
+  have hfr : regionOf v (fatBlock v c) = .fat := (FatLens.fat_blocks_in_fat_region v hg c h.1.2).1
+  unfold Spec.fatRaw
+  rw [FBasic.Disk.get_set, if_neg (fun e : b = fatBlock v c => hb (e ▸ hfr))]
 
 /-- **The bridge.** -/
 theorem cixp_of_medX (hM : MedX v d files gh X) (hR : RawOKX v.fatType d files) (hD : DirClustersInit v P d gh) :
